@@ -59,16 +59,25 @@ def _new(kind):
     return object.__new__(cls)
 
 
+base_mod = importlib.import_module("gscrib.heightmaps.base_heightmap")
+
+
 def _with_np(kind, fn):
-    mod = raster_mod if kind == "raster" else sparse_mod
+    # the filter may live in the concrete class or in the base class: shim numpy wherever it is used
     if not MODE.symbolic:
         return fn()
-    old = mod.numpy
-    mod.numpy = ListNp()
+    mods = [m for m in (raster_mod, sparse_mod, base_mod)]
+    olds = [getattr(m, "numpy", None) for m in mods]
+    for m in mods:
+        m.numpy = ListNp()
     try:
         return fn()
     finally:
-        mod.numpy = old
+        for m, old in zip(mods, olds):
+            if old is None:
+                del m.numpy
+            else:
+                m.numpy = old
 
 
 def _points(zs):
